@@ -70,6 +70,9 @@ def run(ctx):
         rnd = random.Random(ctx.seed)
         rnd.shuffle(more)
         hooks += [h for h in more if len(h) >= 2][:25]
+    # placeholders more than once, in any position (every tier)
+    hooks += [["%url", "%url"], ["--a", "%url", "--referrer", "%url"], ["%mimetype", "%mimetype", "%url", "%url"], ["%url", "x", "%url", "%url"],
+              ["%subtype", "%url", "%supertype", "%url", "%mimetype", "%subtype"], ["%supertype", "%supertype"], ["--type", "%mimetype"], ["%subtype"]]
     if len(hooks) < 10:
         raise vlib.Inconclusive("hook generator produced %d configurations" % len(hooks))
     evs, rc, txt = run_harness(ctx, "ui", "TestVerifHook", {"hooks": hooks}, timeout=3000)
@@ -80,7 +83,7 @@ def run(ctx):
     for e in calls:
         res.case([e["hook"][2:], e["link"], e["mt"]])
     res.rule = ("a case is one external open through the real UI (number+Enter on each of 22 body links / attachments, o, p, b), in-process and in processes started with a configuration file naming the hook, under "
-                "one hook configuration; the hook program is the harness binary itself, recording argv and stdin; judged by T_Hook "
+                "one hook configuration, and pairs of opens in quick succession (the second key before the first program has started); the hook program is the harness binary itself, recording argv and stdin; judged by T_Hook "
                 "(argv = Subst(hook, link, media type), stdin = link iff no argument is exactly %url); distinct = distinct (hook "
                 "arguments, link, media type)")
     for e in calls[:1] + calls[-1:]:
